@@ -293,7 +293,8 @@ class Check:
             if f.get('status') == 'open' and match_finding(f.get('match', {}), case):
                 self.known_hits[f['id']] = self.known_hits.get(f['id'], 0) + 1
                 return False
-        if len(self.violations) < 5:
+        self.failure_count = getattr(self, 'failure_count', 0) + 1
+        if self.failure_count <= 5:
             path = self.write_replay(replay)
             self.violations.append((path, False))
         else:
@@ -303,6 +304,11 @@ class Check:
     def report_unproved(self, what, detail):
         """A theorem / extraction / correspondence no longer checks and no
         failing input was found."""
+        self.unproved_count = getattr(self, 'unproved_count', 0) + 1
+        if self.unproved_count > 5:
+            # keep the count, do not flood the replay directory
+            self.violations.append((None, True))
+            return
         replay = {'kind': what, 'detail': detail, 'no_failing_input_found': True}
         path = self.write_replay(replay)
         self.violations.append((path, True))
@@ -346,7 +352,7 @@ class Check:
                     self.prop, f['what'], self.known_hits[f['id']], f['id']))
         if self.violations:
             seen = set()
-            for path, no_input in self.violations:
+            for path, no_input in sorted(self.violations, key=lambda v: v[1]):
                 if path is None or path in seen:
                     continue
                 seen.add(path)
